@@ -32,6 +32,15 @@ Theorem C14_registered_iff : forall evs p, wf evs ->
 Proof. exact registered_iff. Qed.
 Print Assumptions C14_registered_iff.
 
+(* "Open" in C14_registered_iff means: enrolled while IsClosed answered false, and not reported
+   closed since.  On histories in which IsClosed is never answered false after the connection's
+   closure was reported (w3: the order libp2p guarantees when IsClosed is asked inside addPeer's
+   critical section, and the one the checker holds the implementation to) this is the same as never
+   having been reported closed at all. *)
+Theorem C14_open_is_strict : forall evs c, w3 evs -> truly_open evs c = open_enrolled evs c.
+Proof. exact truly_open_w3. Qed.
+Print Assumptions C14_open_is_strict.
+
 (* When the last such connection of a peer closes: the peer is removed from both maps, exactly one
    notification carrying its registered record is appended, and the context of every wrapper run of
    that peer that is past addStream (handler running or about to) is cancelled ... *)
